@@ -28,12 +28,16 @@ def model_line(driver, doc):
 
 
 def add_cases(run, sec, count, gen=None, skip_errors=True, mode='mixed'):
-    """Queue `count` generated documents: protocol line `pmoof …`, the implementation's canonical output.
+    """Queue the corpus documents (the open finding and the regression cases of the repaired ones) and then
+    `count` generated documents: protocol line `pmoof …`, the implementation's canonical output.
     `skip_errors`: an exception of the implementation is C02's business; C01/C03 only count it."""
     docs.quiet()
     gen = gen or (lambda rng: pm_oof.gen_doc(rng, mode=mode))
-    for _ in range(count):
-        doc = gen(run.rng)
+    corpus = [(name, corpus_doc(name)[0]) for name in corpus_names()] if count else []
+    generated = [(None, None)] * count
+    for name, doc in corpus + generated:
+        if doc is None:
+            doc = gen(run.rng)
         out = real_line(doc)
         if skip_errors and out.startswith('err:') and out != 'err:pagination':
             sec.tags['implementation raised (left to C02)'] += 1
@@ -42,7 +46,10 @@ def add_cases(run, sec, count, gen=None, skip_errors=True, mode='mixed'):
         tags = pm_oof.features(doc) + [f'pages{min(pages, 10)}']
         if '(bk (' in out:
             tags.append('out-of-flow-cut')
-        sec.add(pm_oof.doc_line(doc), out, meta={'doc': doc_json(doc)}, nontrivial=pages >= 2, tags=tags)
+        if name:
+            tags.append('corpus')
+        sec.add(pm_oof.doc_line(doc), out, meta={'doc': doc_json(doc), **({'corpus': name} if name else {})},
+                nontrivial=pages >= 2, tags=tags)
 
 
 # ---------------------------------------------------------------------------------------------
@@ -179,45 +186,135 @@ def box_ids(frag, out):
 
 
 def fit_violation(doc, impl_out):
-    """C03 geometry clause for the flow: an in-flow line ends below the page bottom only if it is the first
-    in-flow line of its page."""
+    """C03 geometry clauses for the flow, on the implementation's output. With "placed before" = an in-flow line or
+    a float laid out in the flow of this page earlier in tree order (the continuation of a box cut on the previous
+    page, which `make_page` puts in front of the root's children, and absolutely positioned boxes do not count:
+    `page_is_empty` ignores them):
+    (1) an in-flow line ends below the page bottom only if nothing was placed before it on its page;
+    (2) so does the content box of an in-flow box that holds lines of its flow, or has no children but a height,
+        padding or border;
+    (3) the bottom padding + border of a paragraph fragment that is drawn under its last line on this page (last
+        line of the paragraph, or box-decoration-break: clone) fits as well, same exemption;
+    (4) a box continued on the next page that keeps its bottom padding/border (clone) has its bottom border edge
+        inside the page, unless it lies on the chain of first content of the page and holds at most one leaf (not judged:
+        boxes with a fixed height inside, documents with floats: the forced first content has any size / is pushed
+        down by any amount).
+    Out-of-flow subtrees are not judged (they are laid out with page_is_empty). Documents with box-decoration-break:
+    clone and a negative margin-bottom are not judged (known finding clone-negative-margin-bottom)."""
     if impl_out.startswith('err:'):
         return None
     by_id = box_index(doc)
+    if any(box['st']['clone'] and box['st']['mb'] < 0 for box, _ in by_id.values()):
+        return None
     bottom = doc['pageH'] * (1 + pm_oof.Fraction(1, 10 ** 9))
-    for page in parse_pages(impl_out):
-        first = [True]
 
-        def walk(frag):
-            if frag[0] == 'ph' or by_id[int(frag[1])][0]['pos'] != 'static':
+    def in_flow(frag):
+        return frag[0] != 'ph' and by_id[int(frag[1])][0]['pos'] == 'static'
+
+    def has_lines(frag, flow=True):
+        """lines of the fragment's own flow (`flow=False`: of a float, whatever it holds in its flow)"""
+        if frag[0] == 'ph' or (flow and not in_flow(frag)):
+            return False
+        if frag[0] == 'p':
+            return bool(frag[-1])
+        return any(has_lines(kid) for kid in frag[-1])
+
+    def leaves(frag):
+        if not in_flow(frag):
+            return 0
+        if frag[0] == 'p':
+            return len(frag[-1])
+        return sum(leaves(kid) for kid in frag[-1]) if frag[-1] else 1
+
+    def flow_ids(frag, out):
+        if in_flow(frag):
+            out.add(int(frag[1]))
+            if frag[0] == 'b':
+                for kid in frag[-1]:
+                    flow_ids(kid, out)
+        return out
+
+    pages = parse_pages(impl_out)
+    for number, page in enumerate(pages):
+        placed = [False]
+        continued = flow_ids(pages[number + 1][-1], set()) if number + 1 < len(pages) else set()
+        # floats push the (forced) first content of a page, or a box that clears them, down by any amount: clause (4)
+        # is judged on documents without floats only
+        pushed = any(box['pos'] == 'float' for box, _ in by_id.values())
+
+        def walk(frag, top, first_chain):
+            if frag[0] == 'ph':
                 return None
+            box = by_id[int(frag[1])][0]
+            if box['pos'] == 'abs':
+                return None
+            if box['pos'] == 'float':
+                if not top:              # a float of this page's flow (not a continuation in front of the root)
+                    placed[0] = placed[0] or has_lines(frag, False) or sx.rat(frag[10]) > 0
+                return None
+            y, mt, _, pt, pb, bt, bb, h = (sx.rat(x) for x in frag[3:11])
+            # judged: boxes holding lines of their flow, and childless boxes with a height, padding or border (the
+            # empty fragment of a box whose first child is a float, kept below the page bottom, is the known finding
+            # empty-fragment-below-page-bottom)
+            solid = has_lines(frag) or (box['kind'] == 'block' and not box['kids'] and bool(
+                pt or pb or bt or bb or (h and box['st']['height'] != 'auto')))
+            if placed[0] and solid and y + mt + bt + pt + h > bottom:
+                return (f'page {page[1]}: the content box of n{frag[1]} ends at {y + mt + bt + pt + h} > '
+                        f'{doc["pageH"]} although it is not the first content placed on the page')
+            if ((pb or bb) and box['st']['clone'] and int(frag[1]) in continued and not has_lossy_path(box)
+                    and not pushed and y + mt + bt + pt + h + pb + bb > bottom and not (first_chain and leaves(frag) <= 1)):
+                return (f'page {page[1]}: bottom padding/border of the fragmented box n{frag[1]} ends at '
+                        f'{y + mt + bt + pt + h + pb + bb} below the page bottom')
             if frag[0] == 'p':
-                line_h = by_id[int(frag[1])][0]['lineH']
-                for i, y in frag[-1]:
-                    y = sx.rat(y)
-                    if y + line_h > bottom and not first[0]:
-                        return f'page {page[1]}: line {i} of n{frag[1]} ends at {y + line_h} > {doc["pageH"]}'
-                    first[0] = False
+                line_h = box['lineH']
+                for i, ly in frag[-1]:
+                    ly = sx.rat(ly)
+                    end = ly + line_h
+                    what = 'ends'
+                    if int(i) == box['n'] - 1 or box['st']['clone']:
+                        end, what = end + pb + bb, "with the paragraph's bottom padding and border ends"
+                    if end > bottom and placed[0]:
+                        return (f'page {page[1]}: line {i} of n{frag[1]} {what} at {end} > {doc["pageH"]} '
+                                'although it is not the first content placed on the page')
+                    placed[0] = True
                 return None
-            for kid in frag[-1]:
-                bad = walk(kid)
+            for k, kid in enumerate(frag[-1]):
+                bad = walk(kid, False, first_chain and not placed[0])
                 if bad:
                     return bad
             return None
-        bad = walk(page[-1])
-        if bad:
-            return bad
+
+        for kid in page[-1][-1]:
+            # the continuations in front of the root's children are out of flow: `walk(kid, True, …)` passes over them
+            bad = walk(kid, True, not placed[0])
+            if bad:
+                return bad
     return None
 
 
 # ---------------------------------------------------------------------------------------------
-# corpus (reproduction of the witnesses of lean/WpModel/Witness/C01Oof.lean on the implementation)
+# corpus: the open finding (its witness is in lean/WpModel/Witness/C01Oof.lean) and, as regression cases, the
+# inputs of the findings repaired in /repo (regression theorems in the same Lean file). Every corpus document
+# is also the first case of each pm-oof section, so a repaired defect that comes back is a disagreement with
+# the model on a committed input, judged like any other (-> VIOLATION).
 
 CORPUS = {
     'out-of-flow-lost-at-document-end': 'oof_lost_at_end',
-    'float-fragment-duplicated': 'oof_float_duplicated',
-    'absolute-placeholder-survives-abort': 'oof_abs_survives_abort',
+    'nested-out-of-flow-in-postponed-float': 'oof_nested_float_postponed',
 }
+
+# finding id -> (corpus file, commit that repaired it)
+REGRESSIONS = {
+    'float-fragment-duplicated': ('oof_float_duplicated', 'cdccac3'),
+    'absolute-placeholder-survives-abort': ('oof_abs_survives_abort', 'e3ac9f0'),
+    'float-zero-height-to-origin': ('oof_zero_height_float', '50ab141'),
+    'cut-float-dropped-by-later-float': ('oof_float_dropped_by_later_float', 'cdccac3'),
+    'nested-placeholder-survives-abort': ('oof_nested_abs_abort', 'e3ac9f0'),
+}
+
+
+def corpus_names():
+    return list(CORPUS.values()) + [name for name, _ in REGRESSIONS.values()]
 
 
 def corpus_doc(name):
@@ -228,11 +325,40 @@ def corpus_doc(name):
     return doc_from_json(data['doc']), data
 
 
+def duplication_violation(doc, impl_out):
+    """A line shown more than once (the defect of the repaired findings; independent of the loss at the end of
+    the document, which is the open finding)."""
+    if impl_out.startswith('err:'):
+        return f'pagination raised {impl_out}'
+    by_id = box_index(doc)
+    shown = []
+    for page in parse_pages(impl_out):
+        frag_lines(page[-1], shown, by_id, False)
+    dup = sorted({g for g in shown if shown.count(g) > 1})
+    return f'lines shown more than once: {dup[:6]}' if dup else None
+
+
 def replay_corpus(name):
     """Violation text while the implementation still fails on the corpus document, else None."""
     doc, data = corpus_doc(name)
-    return conservation_violation(doc, real_line(doc))
+    out = real_line(doc)
+    return conservation_violation(doc, out) or duplication_violation(doc, out)
+
+
+def replay_regression(name):
+    """Violation text if the repaired defect is back on the corpus document: the implementation's pagination is
+    no longer the one recorded after the repair and shows a line twice / loses one that was shown."""
+    doc, data = corpus_doc(name)
+    out = real_line(doc)
+    if out == data['implementation']:
+        return None
+    return duplication_violation(doc, out) or conservation_violation(doc, out)
 
 
 def finding_replays():
-    return {finding: (lambda name=name: replay_corpus(name)) for finding, name in CORPUS.items()}
+    """Replay functions by finding id (the repaired ones included: props/c01.py names them; a `fixed:` entry is
+    never replayed as a known finding)."""
+    replays = {finding: (lambda name=name: replay_corpus(name)) for finding, name in CORPUS.items()}
+    replays.update({finding: (lambda name=name: replay_regression(name))
+                    for finding, (name, _) in REGRESSIONS.items()})
+    return replays
